@@ -34,14 +34,14 @@ prop("C01",
       fam("dfs-cancel","H",80000), fam("evict","L",20000,"monitor"), fam("stream","H",20000,"monitor"), fam("expiry","L",20000,"monitor"), fam("mix","L",20000,"monitor"), fam("fine-nolimit","H",40000), fam("fine-nolimit","L",40000), fam("fine-mix","H",40000), fam("wide","H",20000), fam("wide","L",20000)],
      cosim_ignore="order,stamp",
      smoke=True,
-     lin=True)
+     lin="locks")
 prop("C02",
      ["C02_only_guard_ops_change_values", "C02_guard_op_is_local", "C02_new_guard_shows_stored_value", "C02_value_history", "C02_next_guard_sees_what_was_left", "C02_witness"],
      ["C02."],
      [fam("nolimit","H",1500), fam("nolimit","L",1500), fam("dfs-lock2","L",4000), fam("evict","H",800,"monitor"), fam("stream","L",800,"monitor"), fam("mix","L",800,"monitor"), fam("scale","L",2,"monitor"), fam("fine-nolimit","L",2000), fam("fine-mix","H",2000), fam("wide","L",600)],
      [fam("nolimit","H",40000), fam("nolimit","L",40000), fam("dfs-lock2","L",80000), fam("dfs-lock3","H",80000), fam("evict","H",20000,"monitor"), fam("stream","L",20000,"monitor"), fam("mix","L",20000,"monitor"), fam("scale","L",16,"monitor"), fam("scale","H",16,"monitor"), fam("fine-nolimit","L",40000), fam("fine-nolimit","H",40000), fam("fine-mix","H",40000), fam("fine-mix","L",40000), fam("wide","L",20000), fam("wide-evict","H",20000)],
      cosim_ignore="order,stamp",
-     lin=True)
+     lin="values")
 prop("C04",
      ["C04_keys_exact", "C04_quiescent", "C04_count_reports_keys", "C04_keys_reports_keys", "C04_witness"],
      ["C04."],
@@ -109,12 +109,12 @@ prop("C11",
      [fam("stream","H",60000), fam("stream","L",60000), fam("dfs-stream","L",100000), fam("dfs-stream","H",100000), fam("fine-stream","H",40000), fam("fine-stream","L",40000), fam("scale-stream","L",32,"monitor"), fam("scale-stream","H",32,"monitor"), fam("wide","L",20000), fam("wide","H",20000)])
 prop("C14",
      ["C14_exclusive", "C14_try_succeeds_when_free", "C14_try_fails_when_held", "C14_waits_for_holder", "C14_reporting",
-      "C14_no_values_without_guard_ops", "C14_empty_when_idle", "C14_witness"],
+      "C14_no_values_without_guard_ops", "C14_empty_when_idle", "C14_witness", "C14_try_fails_only_if_held_or_awaited", "C14_every_interleaving_refines_the_locked_set"],
      ["C01.", "C04.", "C12.", "C13.", "C14.", "C05."],
      [fam("pool","P",5000), fam("fine-pool","P",2000)],
      [fam("pool","P",150000), fam("fine-pool","P",60000), fam("scale","P",8,"monitor")],
      smoke=True,
-     lin=True)
+     lin="locks")
 prop("C15",
      ["C15_callback_panic_like_error", "C15_panic_reaches_caller", "C15_closure_panic", "C15_values_are_those_committed", "C15_still_consistent", "C15_witness"],
      ["C02.", "C04.", "C12.", "C13.", "C15.", "C08."],
@@ -128,7 +128,7 @@ prop("C05",
      [fam("seq","H",3000), fam("seq","L",3000), fam("nocancel","H",1500), fam("nocancel","L",1500), fam("scale","L",2,"monitor")],
      [fam("seq","H",100000), fam("seq","L",100000), fam("nocancel","H",40000), fam("nocancel","L",40000), fam("mix","H",20000)],
      cosim_obs_is_oracle=True,
-     lin=True)
+     lin="all")
 
 plan = dict(allowed_axioms=[], trusted_base=TRUSTED, assumptions=ASSUME, properties=P)
 json.dump(plan, open(os.path.join(ROOT, "plan.json"), "w"), indent=1)
@@ -166,7 +166,7 @@ manifest = dict(version=1,
     setup_cmd="./setup.sh",
     hooks=dict(guard="cargo feature verif_hooks", enable="harness/Cargo.toml: lockable = { path = \"/repo\", features = [\"verif_hooks\", \"slow_assertions\"] }",
                baseline_off_cmd="cd /repo && cargo nextest run --workspace --no-fail-fast --tool-config-file pb:/w/lib/nextest.toml --profile pb --test-threads 8 --offline",
-               source_commits=["700e6dc", "32e6044", "64331bd"], add_only=True),
+               source_commits=["700e6dc", "32e6044", "64331bd", "02527b8"], add_only=True),
     engines=[dict(name="coq-model+cosim", path="/verif/coq, /verif/ocaml, /verif/harness, /verif/check", serves_properties=sorted(P.keys()),
                   kind_free_text="Coq 8.16 model + theorems; extracted OCaml model co-simulated against traces of the real crate produced by a deterministic-scheduler harness")],
     checks=checks,
